@@ -1,6 +1,6 @@
 """Line/branch coverage of /repo/src/cooler under one check's quick units (development aid, not a check).
 
-usage: PYTHONPATH=/repo/src:/verif /venv/bin/python tools/cov_units.py <ID> <seconds> <outdir>
+usage: PYTHONPATH=/repo/src:/verif /venv/bin/python tools/cov_units.py <ID> <seconds> <outdir> [shard nshards]
 Runs the units of the quick tier in-process (one unit per leg first, then round-robin) until the time
 budget is used, under coverage.py with branch measurement; writes <outdir>/<ID>.cov.  Subprocess pools that
 a check starts itself are not measured. Combine with tools/cov_report.sh."""
@@ -11,8 +11,9 @@ import time
 import coverage
 
 cid, budget, outdir = sys.argv[1], float(sys.argv[2]), sys.argv[3]
+shard, nshards = (int(sys.argv[4]), int(sys.argv[5])) if len(sys.argv) > 5 else (0, 1)
 os.makedirs(outdir, exist_ok=True)
-cov = coverage.Coverage(data_file=os.path.join(outdir, cid + ".cov"), source=["/repo/src/cooler"], branch=True)
+cov = coverage.Coverage(data_file=os.path.join(outdir, f"{cid}.{shard}.cov"), source=["/repo/src/cooler"], branch=True)
 cov.start()
 from vmc import run as vrun  # noqa: E402
 
@@ -27,7 +28,8 @@ for i, u in enumerate(units):
 t0 = time.time()
 n = 0
 stride = max(1, len(rest) // 40)
-for i, u in first + rest[::stride] + rest:
+todo = (first + rest[::stride] + rest)[shard::nshards]
+for i, u in todo:
     if time.time() - t0 > budget:
         break
     try:
